@@ -100,6 +100,51 @@ func equalNorm(got, want reflect.Value) bool {
 	}
 }
 
+// nilnessPreserved: for attribute-typed slices and maps (elements that are
+// not structs / pointers to structs, i.e. not block fields) the real encoder
+// writes null for nil and an empty constructor for empty, and the decoder
+// reads them back as such, so the inverse law holds exactly; for block slices
+// zero blocks necessarily decode to nil.
+func nilnessPreserved(got, want reflect.Value) bool {
+	if got.Type() != want.Type() {
+		return false
+	}
+	switch want.Kind() {
+	case reflect.Ptr:
+		if got.IsNil() || want.IsNil() {
+			return got.IsNil() == want.IsNil()
+		}
+		return nilnessPreserved(got.Elem(), want.Elem())
+	case reflect.Slice:
+		et := want.Type().Elem()
+		for et.Kind() == reflect.Ptr {
+			et = et.Elem()
+		}
+		if et.Kind() != reflect.Struct && got.IsNil() != want.IsNil() {
+			return false
+		}
+		for i := 0; i < want.Len() && i < got.Len(); i++ {
+			if !nilnessPreserved(got.Index(i), want.Index(i)) {
+				return false
+			}
+		}
+	case reflect.Map:
+		if got.IsNil() != want.IsNil() {
+			return false
+		}
+	case reflect.Struct:
+		if want.Type() == ctyValueType {
+			return true
+		}
+		for i := 0; i < want.NumField(); i++ {
+			if !nilnessPreserved(got.Field(i), want.Field(i)) {
+				return false
+			}
+		}
+	}
+	return true
+}
+
 func show(v reflect.Value) string {
 	b, err := json.Marshal(v.Interface())
 	if err != nil {
@@ -277,6 +322,9 @@ func judgeRoundTrip(d Data, rt reflect.Type, vp reflect.Value) engine.Outcome {
 		}
 		if !equalNorm(fresh, vp) {
 			return fail("native-value-mismatch", "DecodeBody of the output of %s gives %s\n%s", s.name, show(fresh), s.src)
+		}
+		if !nilnessPreserved(fresh, vp) {
+			return fail("native-nil-vs-empty", "DecodeBody of the output of %s turns a nil attribute collection into an empty one or vice versa: %s\n%s", s.name, show(fresh), s.src)
 		}
 		fresh = reflect.New(rt)
 		if err := hclsimple.Decode("x.hcl", s.src, nil, fresh.Interface()); err != nil {
